@@ -830,6 +830,9 @@ fn parse_json_filter(input: &[u8], output: &mut [u8]) -> Result<(usize, usize), 
             inpos += 1; // pass the hash
 
             // Mark this position (on the letter itself)
+            if num_tag_fields >= start_tags.len() {
+                return Err(InnerError::JsonBadFilter("Too many tag fields", inpos).into());
+            }
             start_tags[num_tag_fields] = inpos;
             num_tag_fields += 1;
 
@@ -838,10 +841,11 @@ fn parse_json_filter(input: &[u8], output: &mut [u8]) -> Result<(usize, usize), 
 
             // Remember we found this tag in the `found_tags` bitfield
             if let Some(bit) = letter_to_tag_bit(letter) {
-                if found_tags & bit == bit {
+                let mask: u64 = 1 << bit;
+                if found_tags & mask == mask {
                     return Err(InnerError::JsonBadFilter("Duplicate tag", inpos).into());
                 }
-                found_tags |= bit;
+                found_tags |= mask;
             }
 
             // Burn the rest
